@@ -7,6 +7,11 @@ THOROUGH_SEEDS = 6
 
 
 def cases(tier, seed):
+    from .C03 import add_via
+    return add_via(_cases(tier, seed), 6 if tier == 'quick' else 4, ('ttm_pad',))
+
+
+def _cases(tier, seed):
     rng = random.Random(seed + 9)
     th = tier == 'thorough'
     cs = []
